@@ -40,9 +40,33 @@ def exec_stack(ops, stats=None):
     m: list = []
     copies: list[list] = []
     nontrivial = False
+    # SPARSE histories contain explicit ["obs", mask] operations and are observed only there
+    # (and in full after the last step): observation is not guaranteed to be pure -- a cached
+    # view filled by iteration, a length memoised by len() -- and a stack that is looked at
+    # after every step never holds a stale one
+    sparse = any(op[0] == "obs" for op in ops)
+    if sparse:
+        ops = list(ops) + [["obs", 63]]
     for i, op in enumerate(ops):
         name = op[0]
         try:
+            if name == "obs":
+                mask = op[1]
+                if mask & 1 and list(s) != m:
+                    return _viol("stack", "iteration-differs-at-an-observation", i, op, {"got": list(s), "expected": list(m)}, ops[:-1] if i == len(ops) - 1 else ops)
+                if mask & 2 and (len(s) != len(m) or s.empty() != (not m)):
+                    return _viol("stack", "len-or-empty-differs-at-an-observation", i, op, {"len": len(s), "expected": list(m)}, ops)
+                if mask & 4 and m and (s.peek() != m[-1] or s[-1] != m[-1] or s[0] != m[0]):
+                    return _viol("stack", "peek-or-index-differs-at-an-observation", i, op, {"expected": list(m)}, ops)
+                if mask & 8 and (list(s[:]) != m or list(s[1:]) != m[1:] or list(s[-2:]) != m[-2:] or list(s[::2]) != m[::2] or list(s[::-1]) != m[::-1]):
+                    return _viol("stack", "slice-differs-at-an-observation", i, op, {"expected": list(m)}, ops)
+                if mask & 16 and list(reversed(s)) != m[::-1]:
+                    return _viol("stack", "reversed-differs-at-an-observation", i, op, {"got": list(reversed(s)), "expected": list(m)}, ops)
+                if mask & 32 and ((0 in s) or any(x not in s for x in m) or any(s.index(x) != m.index(x) or s.count(x) != 1 for x in m[:8]) or [x for x in s] != m or bool(len(s)) != bool(m)):
+                    return _viol("stack", "sequence-protocol-differs-at-an-observation", i, op, {"expected": list(m)}, ops)
+                if stats is not None:
+                    stats["steps"] += 1
+                continue
             if name == "push":
                 s.push(op[1])
                 m.append(op[1])
@@ -87,6 +111,10 @@ def exec_stack(ops, stats=None):
                     copies.pop()
             else:
                 raise ValueError(f"bad op {op}")
+            if sparse:
+                if stats is not None:
+                    stats["steps"] += 1
+                continue
             # ---- observations after every step
             n = len(m)
             if n > 48 and name in ("push", "pop", "peek") and i % (8 if n < 512 else 128 if n < 4096 else 4096):
@@ -144,10 +172,15 @@ def exec_int(ops, stats=None):
     v = 0
     saved: list[int] = []
     nontrivial = False
+    sparse = any(op[0] == "obs" for op in ops)
+    if sparse:
+        ops = list(ops) + [["obs"]]
     for i, op in enumerate(ops):
         name = op[0]
         try:
-            if name == "add":
+            if name == "obs":
+                pass
+            elif name == "add":
                 x = x + op[1]
                 v += op[1]
             elif name == "sub":
@@ -211,6 +244,10 @@ def exec_int(ops, stats=None):
                     saved.pop()
             else:
                 raise ValueError(f"bad op {op}")
+            if sparse and name != "obs":
+                if stats is not None:
+                    stats["steps"] += 1
+                continue
             if int(x) != v:
                 return _viol("int", f"value-differs-after-{name}", i, op, {"got": int(x), "expected": v}, ops)
             if (x > 0) != (v > 0) or (x == v) is not True or (x != v) is not False or (x >= 0) != (v >= 0) or (x < 1) != (v < 1) or (x <= 0) != (v <= 0) or str(x) != str(v):
@@ -240,14 +277,22 @@ def exec_state(ops, stats=None):
     depth = 0
     brackets: list = []  # ("cp", (pos, user, rule, depth)) | ("at", depth, cm)
     nontrivial = False
+    sparse = any(op[0] == "obs" for op in ops)
+    if sparse:
+        ops = list(ops) + [["obs"]]
     for i, op in enumerate(ops):
         name = op[0]
         try:
-            if name == "pos":
+            if name == "obs":
+                pass
+            elif name == "pos":
                 st.pos = op[1]
                 pos = op[1]
             elif name == "upush":
                 st.push(op[1])
+                user.append(op[1])
+            elif name == "upushd":
+                st.user_stack.push(op[1])  # directly on the public Stack, not through state.push()
                 user.append(op[1])
             elif name == "udrop":
                 if not user:
@@ -309,6 +354,10 @@ def exec_state(ops, stats=None):
                 depth = d
             else:
                 raise ValueError(f"bad op {op}")
+            if sparse and name != "obs":
+                if stats is not None:
+                    stats["steps"] += 1
+                continue
             got = (st.pos, list(st.user_stack), [f.name for f in st.rule_stack], int(st.atomic_depth))
             exp = (pos, user, rule, depth)
             if got != exp:
@@ -338,6 +387,27 @@ STACK_CODE = {k: i for i, k in enumerate(STACK_KINDS)}
 
 
 def gen_stack(rng: random.Random, probes: dict) -> list:
+    """A dense history (observed after every step) or, one time in four, a SPARSE one: the
+    same generators, observed only at explicit seeded ["obs", accessor mask] operations."""
+    ops = _gen_stack_dense(rng, probes)
+    if rng.random() < 0.25 and len(ops) <= 400:
+        p_obs = rng.choice((0.05, 0.15, 0.3, 0.5))
+        masks = rng.choice(((1,), (1, 2, 4, 8, 16, 32), (1, 16, 32), (2, 4), (8,), (63,), (1, 3, 5, 9, 17, 33, 63)))
+        out = [["obs", rng.choice(masks)]] if rng.random() < 0.5 else []
+        for op in ops:
+            if op[0] == "peek":
+                continue
+            out.append(op)
+            if rng.random() < p_obs:
+                out.append(["obs", rng.choice(masks)])
+        if not any(op[0] == "obs" for op in out):
+            out.append(["obs", rng.choice(masks)])
+        probes["gen_sparse"] += 1
+        return out
+    return ops
+
+
+def _gen_stack_dense(rng: random.Random, probes: dict) -> list:
     """Seeded history over a Stack; swarm weights + three biased shapes."""
     ops: list = []
     counter = [0]
@@ -675,7 +745,8 @@ def gen_state(rng: random.Random, probes: dict) -> list:
     rsize = [0]
     w = {
         "pos": rng.choice((1, 2)),
-        "upush": rng.choice((1, 2, 4)),
+        "upush": rng.choice((0, 1, 2, 4)),
+        "upushd": rng.choice((0, 1, 2, 4)),
         "udrop": rng.choice((1, 2, 4)),
         "upop": rng.choice((0, 1, 2)),
         "uclear": rng.choice((0, 0, 1)),
@@ -703,9 +774,9 @@ def gen_state(rng: random.Random, probes: dict) -> list:
         k = rng.choices(kinds, weights)[0]
         if k == "pos":
             ops.append(["pos", rng.randint(0, 9)])
-        elif k == "upush":
+        elif k in ("upush", "upushd"):
             counter[0] += 1
-            ops.append(["upush", f"u{counter[0]}"])
+            ops.append([k, f"u{counter[0]}"])
         elif k == "rpush":
             counter[0] += 1
             ops.append(["rpush", f"r{counter[0]}"])
@@ -734,7 +805,26 @@ def gen_state(rng: random.Random, probes: dict) -> list:
     return ops
 
 
-GEN = {"stack": gen_stack, "int": gen_int, "state": gen_state}
+def _sparsely(gen):
+    def g(rng, probes):
+        ops = gen(rng, probes)
+        if rng.random() < 0.2 and len(ops) <= 400:
+            p_obs = rng.choice((0.05, 0.2, 0.5))
+            out = []
+            for op in ops:
+                out.append(op)
+                if rng.random() < p_obs:
+                    out.append(["obs"])
+            if not any(op[0] == "obs" for op in out):
+                out.append(["obs"])
+            probes["gen_sparse"] += 1
+            return out
+        return ops
+
+    return g
+
+
+GEN = {"stack": gen_stack, "int": _sparsely(gen_int), "state": _sparsely(gen_state)}
 
 # ------------------------------------------------------------- abstract-reach measures
 
@@ -744,7 +834,7 @@ def stack_abstract_code(ops) -> int | None:
     code = 1
     n = 0
     for op in ops:
-        if op[0] == "peek":
+        if op[0] in ("peek", "obs"):
             continue
         n += 1
         if n > 7:
@@ -799,7 +889,7 @@ def run_batch(job) -> dict:
     gc.disable()
     subject = job["subject"]
     rng = random.Random(job["seed"])
-    probes = {k: 0 for k in ("gen_uniform_short", "shape_a", "shape_b", "shape_c", "shape_d", "shape_e", "restore_without_snapshot", "gen_big", "gen_huge", "big_height_ge_100", "big_depth_ge_50", "big_popped_below_level_ge_50")}
+    probes = {k: 0 for k in ("gen_uniform_short", "shape_a", "shape_b", "shape_c", "shape_d", "shape_e", "restore_without_snapshot", "gen_big", "gen_huge", "gen_sparse", "big_height_ge_100", "big_depth_ge_50", "big_popped_below_level_ge_50")}
     st = {"steps": 0, "nontrivial_flag": False}
     distinct_nt: set[int] = set()
     abstract: set[int] = set()
